@@ -84,10 +84,11 @@ def eval_pred(ix, mod, expr, binding, depth=0, fn=None):
             q = ix.resolve_name(mod, node.func.id)
             if q in ix.funcs:
                 f = ix.funcs[q]
-                body = [s for s in f.node.body if not (isinstance(s, ast.Expr) and isinstance(s.value, ast.Constant))]
-                if len(body) == 1 and isinstance(body[0], ast.Return) and len(node.args) == len(f.params):
+                from ..py import norm as _norm
+                value = _norm.as_expression(f.node.body)
+                if value is not None and len(node.args) == len(f.params):
                     args = [AEval(atom).ev(a) for a in node.args]
-                    return eval_pred(ix, f.mod, body[0].value, dict(zip(f.params, args)), depth + 1)
+                    return eval_pred(ix, f.mod, value, dict(zip(f.params, args)), depth + 1)
         return ga(node)
     ev = AEval(atom)
     if getattr(eval_pred, "_value_mode", False):
@@ -109,14 +110,16 @@ def c15_1(rep, ix):
     rep.rule(R, "the p-type predicate (first character 'p', remainder decimal digits) is the same in the listener and in both inline copies of the serialiser, where it also requires the program type tdm; "
                 "decided by evaluating each predicate on a fixed list of model strings", floor=3 * len(STRINGS))
     f = ix.func("listener.is_ptype")
-    body = [s for s in f.node.body if not (isinstance(s, ast.Expr) and isinstance(s.value, ast.Constant))]
-    if len(body) != 1 or not isinstance(body[0], ast.Return):
-        raise Inconclusive("is_ptype is not a single return expression")
+    from ..py import norm as _norm
+    value = _norm.as_expression(f.node.body)
+    if value is None:
+        raise Inconclusive("is_ptype is not a side-effect-free expression of its argument")
+    body = [ast.Return(value=value)]
     for s in STRINGS:
         if not s:
             continue
         try:
-            got = eval_pred(ix, "listener", body[0].value, {f.params[0]: s})
+            got = eval_pred(ix, f.mod, body[0].value, {f.params[0]: s})
         except ModelError as e:
             got = "raises " + str(e)
         rep.check(got == is_p(s), R, ix.site(f), "is_ptype(%r) is %s" % (s, is_p(s)), "evaluates to %s" % got, key="is_ptype|" + s)
@@ -261,6 +264,57 @@ def c15_2(rep, ix):
     rep.check(plain and (pos(t) < pos(plain[0])), R, ix.site(e, t), "other variables are returned by value after the p-array test", key="eval order")
 
 
+def registration_exact(fn, st):
+    """the statement is reached iff (program type is tdm) and (the declared name is a p-name), for every truth value of the other names its
+    guards mention: decided with guards.Reach on the 2 x 2 models times the valuations of the remaining guard names"""
+    import itertools
+    from ..py.guards import Reach, path_to
+    path = path_to(fn.body, st) or []
+    tests = [stmts[i].test for (stmts, i, field) in path if isinstance(stmts[i], ast.If)]
+    for (stmts, i, field) in path:
+        for s_ in stmts[:i]:
+            if isinstance(s_, ast.If):
+                tests.append(s_.test)
+    free = set()
+    for t in tests:
+        covered = set()
+        for n in ast.walk(t):
+            if isinstance(n, ast.Call) and "is_ptype" in u(n.func):
+                covered |= {id(x) for x in ast.walk(n)}
+            if isinstance(n, ast.Subscript) and "type" in u(n.value).lower() and isinstance(n.slice, ast.Constant) and n.slice.value == "name":
+                covered |= {id(x) for x in ast.walk(n)}
+        for n in ast.walk(t):
+            if isinstance(n, ast.Name) and id(n) not in covered and n.id not in ("self", "ctx", "isinstance", "len", "np", "str", "any", "all", "bool"):
+                free.add(n.id)
+    free = sorted(free)[:4]
+    wrong = []
+    for tdm, isp in itertools.product((True, False), repeat=2):
+        for vals in itertools.product(((), (1,)), repeat=len(free)):
+            env = dict(zip(free, vals))
+
+            def atom(node, tdm=tdm, isp=isp, env=env):
+                if isinstance(node, ast.Call) and "is_ptype" in u(node.func):
+                    return isp
+                if isinstance(node, ast.Subscript) and "type" in u(node.value).lower() and isinstance(node.slice, ast.Constant) and node.slice.value == "name":
+                    return "tdm" if tdm else "other"
+                if isinstance(node, ast.Name) and node.id in env:
+                    return env[node.id]
+                return AEval.NO
+            r_ = Reach(fn, st)
+            got = r_.may_reach(atom)
+            want = tdm and isp
+            if got and not want:
+                # reachable: only a verdict if the enclosing guards are decided (what precedes them may be undecidable and is irrelevant here)
+                enclosing = [r_.test(stmts[i].test, atom) if field == "body" else (None if r_.test(stmts[i].test, atom) is None else not r_.test(stmts[i].test, atom))
+                             for (stmts, i, field) in path if isinstance(stmts[i], ast.If) and field in ("body", "orelse")]
+                if any(x is None for x in enclosing):
+                    continue
+            if got != want:
+                wrong.append("for a %s program, a name that is %sa p-name and %s it is %sreached" % (
+                    "tdm" if tdm else "non-tdm", "" if isp else "not ", ", ".join("%s %s" % (k, "non-empty" if v else "empty") for k, v in env.items()) or "no other condition", "" if got else "not "))
+    return wrong
+
+
 def c15_3(rep, ix):
     R = "C15.3"
     rep.rule(R, "every writer of the parameter table is one of the recognised kinds: append of a parameter-derived symbol or of a p-array name under the tdm/p-type guard, expansion of a whole-array "
@@ -288,6 +342,11 @@ def c15_3(rep, ix):
                 elif a == "append":
                     ok = ".parameter().NAME().getText()" in rt or guarded_by_ptype(f.node, st)
                     why = "appends `%s`" % rt[:60]
+                    if ok and ".parameter().NAME().getText()" not in rt:
+                        wrong = registration_exact(f.node, st)
+                        if wrong:
+                            ok = False
+                            why = "the name is registered exactly when the program is a tdm program and the name is a p-name, whatever else holds; but %s" % "; ".join(wrong[:2])
                     if ok and ".parameter().NAME().getText()" not in rt and q != ARRAY and ix.funcs[q].qual in ix.known:
                         # a name (string) is registered: only array declarations are passed by name; a scalar `float p2 = 0.7` is a value
                         ok = False
